@@ -45,6 +45,11 @@ func init() {
 			if rc.Only != "" {
 				return
 			}
+			for _, v := range rc.Violations {
+				if strings.HasPrefix(v.Sig, "crash:") || strings.HasPrefix(v.Sig, "hang:") {
+					return // a stage died (that is reported as a violation); its counters are incomplete by construction
+				}
+			}
 			// the containment oracle only has something to judge when the code returns addresses
 			if a, n := rc.Counts["select.outcome_address"], rc.Counts["select.evaluations"]; n > 0 && a*5 < n {
 				rc.Errors = append(rc.Errors, fmt.Sprintf("C14: only %d of %d selections returned an address; the containment oracle observed too little (inconclusive)", a, n))
